@@ -245,7 +245,9 @@ namespace bxdecay0 {
   // static
   const std::string & dbd_gA::env_data_base_dir()
   {
-    static std::string _dbd_gA_data_root;
+    // One string per thread: generators initialised at the same time on
+    // different threads would otherwise assign the same string concurrently.
+    static thread_local std::string _dbd_gA_data_root;
     const char * env_key = "BXDECAY0_DBD_GA_DATA_DIR";
     if (std::getenv(env_key) != nullptr) {
       _dbd_gA_data_root = std::string(std::getenv(env_key));
